@@ -133,58 +133,61 @@ Section Refinement.
     destruct (trec 0 m) as [[? ?]| |]; cbn; congruence.
   Qed.
 
-  (* the iterator as coded yields the rtl post-order *)
-  Definition item_list (it : ms * bool) : list ms := if snd it then [fst it] else rtl_post (fst it).
-  Definition item_cost (it : ms * bool) : nat := if snd it then 1 else 2 * ms_size (fst it).
-
-  Lemma rtl_post_children m :
-    rtl_post m = flat_map rtl_post (rev (children m)) ++ [m].
-  Proof.
-    destruct m; try reflexivity; cbn [rtl_post children rev flat_map app]; rewrite ?app_nil_r, <- ?app_assoc; try reflexivity.
-    f_equal. induction xs as [|x r IH]; cbn; [reflexivity|]. rewrite flat_map_app, IH. cbn. rewrite app_nil_r. reflexivity.
-  Qed.
-
-  Lemma size_list_rev l : size_list (rev l) = size_list l.
-  Proof. induction l as [|x r IH]; cbn; [reflexivity | rewrite size_list_app; cbn; lia]. Qed.
-
-  Fixpoint stack_cost (st : list (ms * bool)) : nat :=
-    match st with [] => 0 | it :: r => item_cost it + stack_cost r end.
-
-  Lemma stack_cost_app a b : stack_cost (a ++ b) = stack_cost a + stack_cost b.
-  Proof. induction a as [|x r IH]; cbn [stack_cost app]; [reflexivity | rewrite IH; lia]. Qed.
-
-  Lemma stack_cost_fresh l : stack_cost (map (fun c => (c, false)) l) = 2 * size_list l.
-  Proof.
-    induction l as [|x r IH]; [reflexivity|]. cbn [map stack_cost size_list]. rewrite IH.
-    unfold item_cost. cbn [fst snd]. lia.
-  Qed.
-
-  Lemma flat_fresh l : flat_map item_list (map (fun c => (c, false)) l) = flat_map rtl_post l.
-  Proof. induction l as [|x r IH]; [reflexivity|]. cbn [map flat_map]. rewrite IH. reflexivity. Qed.
-
-  Lemma rtl_post_stack_refines : forall fuel stack,
-    stack_cost stack <= fuel -> rtl_post_stack fuel stack = Some (flat_map item_list stack).
-  Proof.
-    induction fuel as [|fu IH]; intros [|[m p] rest] Hs; try reflexivity.
-    - cbn [stack_cost] in Hs. unfold item_cost in Hs. cbn [fst snd] in Hs.
-      destruct p; [lia | rewrite ms_size_children in Hs; lia].
-    - cbn [rtl_post_stack]. cbn [stack_cost] in Hs. unfold item_cost in Hs. cbn [fst snd] in Hs. destruct p.
-      + rewrite IH by lia. reflexivity.
-      + rewrite IH.
-        * rewrite flat_map_app, flat_fresh. cbn [flat_map]. f_equal.
-          change (item_list (m, true)) with [m]. change (item_list (m, false)) with (rtl_post m).
-          rewrite (rtl_post_children m), <- !app_assoc. reflexivity.
-        * rewrite stack_cost_app, stack_cost_fresh, size_list_rev. cbn [stack_cost]. unfold item_cost. cbn [fst snd].
-          rewrite ms_size_children in Hs. lia.
-  Qed.
-
-  Theorem rtl_post_iter_refines m : rtl_post_stack (2 * ms_size m) [(m, false)] = Some (rtl_post m).
-  Proof.
-    rewrite rtl_post_stack_refines.
-    - cbn. rewrite app_nil_r. reflexivity.
-    - cbn [stack_cost]. unfold item_cost. cbn [fst snd]. lia.
-  Qed.
 End Refinement.
+
+(* ------------------------------------------------------------------ the iterator as coded yields the rtl post-order
+   (independent of translator and re-check, hence outside the section) *)
+Definition item_list (it : ms * bool) : list ms := if snd it then [fst it] else rtl_post (fst it).
+Definition item_cost (it : ms * bool) : nat := if snd it then 1 else 2 * ms_size (fst it).
+
+Lemma rtl_post_children m :
+  rtl_post m = flat_map rtl_post (rev (children m)) ++ [m].
+Proof.
+  destruct m; try reflexivity; cbn [rtl_post children rev flat_map app]; rewrite ?app_nil_r, <- ?app_assoc; try reflexivity.
+  f_equal. induction xs as [|x r IH]; cbn; [reflexivity|]. rewrite flat_map_app, IH. cbn. rewrite app_nil_r. reflexivity.
+Qed.
+
+Lemma size_list_rev l : size_list (rev l) = size_list l.
+Proof. induction l as [|x r IH]; cbn; [reflexivity | rewrite size_list_app; cbn; lia]. Qed.
+
+Fixpoint stack_cost (st : list (ms * bool)) : nat :=
+  match st with [] => 0 | it :: r => item_cost it + stack_cost r end.
+
+Lemma stack_cost_app a b : stack_cost (a ++ b) = stack_cost a + stack_cost b.
+Proof. induction a as [|x r IH]; cbn [stack_cost app]; [reflexivity | rewrite IH; lia]. Qed.
+
+Lemma stack_cost_fresh l : stack_cost (map (fun c => (c, false)) l) = 2 * size_list l.
+Proof.
+  induction l as [|x r IH]; [reflexivity|]. cbn [map stack_cost size_list]. rewrite IH.
+  unfold item_cost. cbn [fst snd]. lia.
+Qed.
+
+Lemma flat_fresh l : flat_map item_list (map (fun c => (c, false)) l) = flat_map rtl_post l.
+Proof. induction l as [|x r IH]; [reflexivity|]. cbn [map flat_map]. rewrite IH. reflexivity. Qed.
+
+Lemma rtl_post_stack_refines : forall fuel stack,
+  stack_cost stack <= fuel -> rtl_post_stack fuel stack = Some (flat_map item_list stack).
+Proof.
+  induction fuel as [|fu IH]; intros [|[m p] rest] Hs; try reflexivity.
+  - cbn [stack_cost] in Hs. unfold item_cost in Hs. cbn [fst snd] in Hs.
+    destruct p; [lia | rewrite ms_size_children in Hs; lia].
+  - cbn [rtl_post_stack]. cbn [stack_cost] in Hs. unfold item_cost in Hs. cbn [fst snd] in Hs. destruct p.
+    + rewrite IH by lia. reflexivity.
+    + rewrite IH.
+      * rewrite flat_map_app, flat_fresh. cbn [flat_map]. f_equal.
+        change (item_list (m, true)) with [m]. change (item_list (m, false)) with (rtl_post m).
+        rewrite (rtl_post_children m), <- !app_assoc. reflexivity.
+      * rewrite stack_cost_app, stack_cost_fresh, size_list_rev. cbn [stack_cost]. unfold item_cost. cbn [fst snd].
+        rewrite ms_size_children in Hs. lia.
+Qed.
+
+Theorem rtl_post_iter_refines m : rtl_post_stack (2 * ms_size m) [(m, false)] = Some (rtl_post m).
+Proof.
+  rewrite rtl_post_stack_refines.
+  - cbn. rewrite app_nil_r. reflexivity.
+  - cbn [stack_cost]. unfold item_cost. cbn [fst snd]. lia.
+Qed.
+
 
 (* ------------------------------------------------------------------ the two key orders are permutations *)
 Lemma keys_pre_rtl_perm m : Permutation (keys_pre m) (keys_rtl m).
